@@ -15,6 +15,7 @@ import random
 
 from .. import common as C
 from .. import enc_expr as X
+from .. import forms as F
 from .. import gen_expr as GE
 
 PROP = "C10"
@@ -34,6 +35,7 @@ RULE = ("(a) structured stream over a common pool of factors (harness/gen_expr.p
         "The branches reached on the real canonicaliser are counted as hit_* tags. A case is non-trivial when the "
         "expression has depth>=3 and at least one Sum or Fraction and its canonical form differs structurally from the input.")
 ASSUMPTIONS = [
+    "argument FORMS (harness/forms.py; chosen deterministically per case, stored in the case, tagged form_*): the ordering handed to canonicalize as list / tuple (the declared Sequence) and as set / frozenset / dict keys / generator / iterator / map (what dsl.ensure_ordering, its consumer, accepts: Iterable), its plain variables as Variable objects, as str names, or mixed; positional or by keyword; no ordering as omitted / None / ordering=None; canonical_expr_equal positional or by keyword (left=, right=). The model takes a list of variables: independence of the form is a runtime clause decided by correspondence + oracle",
     "canon_den is proved for WellScoped expressions (single-world leaves with pairwise distinct names, intervened names disjoint from the leaf's own variables, no +X bound by an enclosing Sum, no Q-factor) and orderings covering the event names, under ProbFamily env and non-vanishing denominators (DenNonzero, implied by Env.Positive for expressions without Zero() in a denominator); multi-world joint terms are outside the quantifier (Sum.simplify's own FIXME)",
     "the Lean theorems are about the hand-written model Y0.Model.Canon/Dsl; the tie to canonicalize_expr.py/dsl.py is this run's correspondence check (sampling)",
     "Python set/frozenset iteration order is modelled as sorted order; populations are plain variables; Sum ranges are plain variables (what Sum.__post_init__ and the builders produce)",
@@ -131,6 +133,10 @@ def structured_cases(rng: random.Random, n: int):
 
 
 def cases(rng: random.Random, tier: str):
+    return [F.assign(c, _slots(c)) for c in _cases(rng, tier)]
+
+
+def _cases(rng: random.Random, tier: str):
     if os.environ.get("VERIF_EXPR_FAST_SEARCH") == "1":
         tier = "quick"      # tools/mutate_expr.py only: keeps the runner's extended search at the size of the quick stream
     out = _load_corpus()
@@ -214,6 +220,18 @@ def _tags(e, extra=None, case=None, feats=True):
     return t
 
 
+def _slots(case):
+    if case["kind"] == "canon":
+        return F.canonicalize_slots(case["ordering"])
+    if case["kind"] == "equal":
+        return {"call": ("positional", "keyword")}
+    return {}
+
+
+def _forms(case):
+    return F.forms_of(case, _slots(case))
+
+
 def run_python(case):
     from y0.mutate import canonical_expr_equal, canonicalize
 
@@ -228,7 +246,8 @@ def run_python(case):
         fail = None
         inq = _in_quantifier(enc, case["ordering"])
         try:
-            c = canonicalize(e, ordering)
+            fm = _forms(case)
+            c = F.call_canonicalize(canonicalize, e, ordering, fm)
             cenc = X.enc_expr(c)
             out = ["ok", X.to_str_tree(cenc)]
         except ERRS as ex:
@@ -244,12 +263,13 @@ def run_python(case):
                           and X.to_str_tree(enc) != out[1])
         return {"out": out, "fail": fail, "nontrivial": nontrivial,
                 "tags": _tags(enc, {"kind": kind, "outcome": out[0], "judged": inq,
-                                    "ordering": "none" if case["ordering"] is None else "explicit"}, case)}
+                                    "ordering": "none" if case["ordering"] is None else "explicit",
+                                    **F.tags(_forms(case))}, case)}
     if kind == "equal":
         a, b = X.dec_expr(case["a"]), X.dec_expr(case["b"])
         fail = None
         try:
-            r = bool(canonical_expr_equal(a, b))
+            r = bool(canonical_expr_equal(left=a, right=b) if _forms(case)["call"] == "keyword" else canonical_expr_equal(a, b))
             out = ["ok", "true" if r else "false"]
         except ERRS:
             r = None
@@ -259,7 +279,7 @@ def run_python(case):
             if w is not None:
                 fail = f"canonical_expr_equal({a}, {b}) is True but the expressions differ: {json.dumps(w, sort_keys=True)}"
         return {"out": out, "fail": fail, "nontrivial": bool(r) and case["a"] != case["b"],
-                "tags": _tags(case["a"], {"kind": kind, "outcome": out[0] if r is None else out[1]}, case)}
+                "tags": _tags(case["a"], {"kind": kind, "outcome": out[0] if r is None else out[1], **F.tags(_forms(case))}, case)}
     if kind == "ws":   # the quantifier predicate itself: Python mirror vs Lean `WellScoped`
         return {"out": ["ok", "true" if GE.well_scoped(case["e"]) else "false"], "fail": None, "nontrivial": False,
                 "tags": _tags(case["e"], {"kind": kind})}
